@@ -5,6 +5,8 @@ mod common;
 mod drive;
 mod explore;
 mod props;
+mod rtok;
+mod tokseam;
 
 use explore::Ctx;
 
